@@ -2,6 +2,7 @@
    for every candidate stream and every verdict stream of the removing filters that follow LevelLimit in the chain. *)
 From Coq Require Import List Bool Arith ZArith.
 From HV Require Import Ord ListX Sprout SproutFacts Tree TreeLemmas TreeInv TreeRun.
+From HV Require Import DriverPrim SproutPrim GenEquivStops GenFilters GenEquivFilters.
 From HV Require Import DriverPrim Driver DriverFacts GenDriver GenEquivDriver DriverCode.
 Import ListNotations.
 
@@ -47,3 +48,12 @@ Theorem C08_translated_code_level_limit c fuel n evs s L : 1 <= height c -> code
   forall lv, 1 <= lv -> active_at (demes s) lv <= L.
 Proof. exact (code_moment_level_limit c fuel n evs s L). Qed.
 Print Assumptions C08_translated_code_level_limit.
+
+(* ---------------------------------------------------------------- LevelLimit TRANSLATED from the current pyhms/sprout/sprout_filters.py
+   (Gen/GenFilters.v): on every candidate dictionary with distinct parents that are not leaves it only looks at the tree and returns
+   exactly the model `level_limit` the machine applies in a sprouting round, so C08_filter_count / C08_round_bound speak about the code *)
+Theorem C08_translated_LevelLimit c fuel L cm s :
+  NoDup (cm_keys cm) -> (forall pk, In pk cm -> S (lvl_at (demes (ms s)) (fst pk)) < height c) ->
+  answers (gen_LevelLimit c fuel L cm) s (level_limit (maximize c) L (lvl_at (demes (ms s))) (active_at (demes (ms s))) cm).
+Proof. exact (LevelLimit_ok c fuel L cm s). Qed.
+Print Assumptions C08_translated_LevelLimit.
